@@ -91,6 +91,13 @@ def main():
 
 
 NOT_APPLICABLE = {}
+CHECKS["C18"] = dict(cat="other", ref="6 C18",
+    text="mixed, hence 'other': (a) proof: the filter predicate of Enum.keys is extracted from the real AST and z3 shows that every user entry (name without leading __, value neither callable nor bound method) is listed and every name class creation adds is not -- for any number of entries; (b) bounded: on real Enum objects whose values are four symbolic integers (any values, possibly equal), every operation sequence of length <= 2 (thorough 3) over add / remove / reverse lookup on a three-name pool, initial mappings of 0..3 entries in dict and keyword form, is compared step by step with an ordered-dictionary model (names in order, values, reverse lookup, KeyError refusals) and a second enumeration alive at the same time must stay untouched; (c) native runs on representative values of the other kinds (str, dict, nested dict, OpCode, None, equal values)",
+    note=TRUST + "bounded in the size of the enumeration and the history length; class creation (type.__new__, vars, setattr, delattr on a class) is CPython's own semantics, executed natively; stated precondition: names are identifiers not starting with __ and not shadowing keys/add/remove/mro, values are not callables")
+CHECKS["C19"] = dict(cat="other", ref="6 C19",
+    text="mixed, hence 'other': (1) the four presence combinations of the two bindings are enumerated completely, each in its own native process: every module found by walking the package imports, every command class builds / encodes / decodes and every facade method works over a recording device (the C01/C02/C05/C13 contracts evaluated natively), the _has_* flags are right, init_device refuses with NotImplementedError before any open / connect iff the binding is missing or the path is foreign; (2) deductive dispatch contracts: init_device, SCSIDevice.__init__ and ISCSIDevice.__init__/open interpreted with the device string symbolic (every string, z3 sequence theory), binding flags, read_write and initiator name (explicit / empty / default) enumerated: /dev/ prefix -> SCSIDevice opened once on exactly that string object with mode by read_write; iscsi:// prefix -> ISCSIDevice with Context(initiator name or url), URL(context, exactly that url), connect(portal, lun of that URL); everything else, or a missing binding -> NotImplementedError and an empty trace",
+    note=TRUST + "part (1) is enumeration of a finite configuration space, not deduction; assumed contracts of open / os.stat and the iscsi binding")
+
 
 if __name__ == "__main__":
     main()
